@@ -310,6 +310,8 @@ def node_src(node, fresh=False):
             tsrc = (tgt['name'] + '()') if tgt['k'] == 'pkt' else node_src(tgt)
             items.append('%r: %s' % (key, tsrc))
         table = '{%s}' % ', '.join(items)
+        if node.get('shared_table'):
+            table = node['shared_table']        # a module-level dict shared by several Ref fields
         if node['form'] == 'chooses':
             sel = node['sel']
             s = 'Ref(%s.chooses(%s), default=%s)' % (expr_src(sel), table, value_src(node['default']))
@@ -401,10 +403,50 @@ def pkt_src(P):
     return 'class %s(Packet):\n%s\n' % (P['name'], '\n'.join(lines))
 
 
+def family_src(Ps):
+    """one module in which the top-level class of every member of Ps is defined under the SAME name, one
+    after the other (each bound to <name>__<i> right after its definition): what a class factory or an
+    edited source file does. Shared sub-packet classes are defined once."""
+    done, parts = set(), []
+    shared = [q for P in Ps for q in subpackets(P)[:-1]]
+    tables = {}
+    for P in Ps:
+        collect_tables(P, tables)
+    for q in shared:
+        if q['name'] not in done:
+            done.add(q['name'])
+            parts.append(pkt_src(q))
+    for name, src in tables.items():
+        at = next((i for i, part in enumerate(parts) if name in part), len(parts))
+        parts.insert(at, '%s = %s\n' % (name, src))
+    for i, P in enumerate(Ps):
+        parts.append(pkt_src(P))
+        parts.append('%s__%d = %s\n' % (P['name'], i, P['name']))
+    return '\n'.join(parts)
+
+
+def collect_tables(P, acc):
+    """module-level selector tables shared by several Ref fields: name -> source"""
+    for q in subpackets(P):
+        for _, node in q['fields']:
+            for n in (node, node.get('elem') or {}):
+                if n.get('k') == 'refsel' and n.get('shared_table'):
+                    items = []
+                    for key, tgt in n['table']:
+                        items.append('%r: %s' % (key, (tgt['name'] + '()') if tgt['k'] == 'pkt' else node_src(tgt)))
+                    acc[n['shared_table']] = '{%s}' % ', '.join(items)
+    return acc
+
+
 def module_src(P, local=False):
     """source of a module defining P and everything it references; local=True puts the classes inside a
     function (their prototypes then cannot be pickled and bisturi falls back to deepcopy)"""
     parts = [pkt_src(q) for q in subpackets(P)]
+    tables = collect_tables(P, {})
+    for n, src in tables.items():
+        # a table goes right before the first class that uses it (the classes it instantiates come earlier)
+        at = next(i for i, part in enumerate(parts) if n in part)
+        parts.insert(at, '%s = %s\n' % (n, src))
     if P.get('shared'):
         parts.insert(0, 'SHARED = %r\n' % (dict(P.get('opts') or {}),))
     if not local:
